@@ -25,7 +25,20 @@ func (s *Sim) offer(a, b int, ch byte, msg consensus.Message, key, desc string) 
 		return
 	}
 	bz := consensus.MustEncode(msg)
-	s.schedule(&Msg{Src: a, Dst: b, Ch: ch, Bytes: bz, Desc: desc, Key: full})
+	s.schedule(&Msg{Src: a, Dst: b, Ch: ch, Bytes: bz, Desc: desc, Key: full, Meta: metaOf(msg)})
+}
+
+// metaOf describes a consensus message for the director.
+func metaOf(msg consensus.Message) msgMeta {
+	switch m := msg.(type) {
+	case *consensus.VoteMessage:
+		return msgMeta{H: m.Vote.Height, R: m.Vote.Round, T: int(m.Vote.Type), I: int(m.Vote.ValidatorIndex)}
+	case *consensus.ProposalMessage:
+		return msgMeta{H: m.Proposal.Height, R: m.Proposal.Round, T: 3}
+	case *consensus.BlockPartMessage:
+		return msgMeta{H: m.Height, R: m.Round, T: 4}
+	}
+	return msgMeta{}
 }
 
 func hasVote(rs *cstypes.RoundState, v *types.Vote) bool {
